@@ -43,6 +43,13 @@ theorem placed_container_is_searched :
       ∀ b, place fam named a df = some b → b ∈ contentContexts fam ++ stylesContexts fam := by
   decide +kernel
 
+/-- a family WITHOUT dedicated search contexts (the data styles: number, currency, date, …; `ruby`) is looked up among the common
+    styles of styles.xml first, then among its automatic styles: a common style inserted under the name of an automatic one of
+    styles.xml is the one found (re-decided at every run from `CONTEXT_MAPPING.get(family) or (…)` in `Styles._get_style_contexts`) -/
+theorem unmapped_family_common_styles_first :
+    Odf.Gen.contextFallback = [.sStyles, .sAuto] ∧ stylesContexts "number" = [.sStyles, .sAuto] ∧ stylesContexts "ruby" = [.sStyles, .sAuto] := by
+  decide +kernel
+
 /-- **unique by family + name**: replacing in a container without homonyms leaves it without
     homonyms, with the new style there exactly once, and every other style in place -/
 theorem insert_keeps_unique (b : Box) (st : Sty) (h : Unique b) :
